@@ -487,7 +487,16 @@ def stream_exhaustive(R, ncolors):
     cases = []
     for k in range(1, kmax + 1):
         for seq in itertools.product(al, repeat=k):
-            cases.append(list(seq))
+            # group letters are kept only where the group has been created (before that they are not even expressible on the real objects)
+            if valid_for(nd, seq):
+                cases.append(list(seq))
+    n_exh = len(cases)
+    # one length more, sampled
+    extra = [list(seq) for seq in itertools.product(al, repeat=kmax + 1) if valid_for(nd, seq)]
+    n_extra = R.pick(5000, 40000)
+    if len(extra) > n_extra:
+        extra = R.subrng('exh-extra').sample(extra, n_extra)
+    cases += extra
     lines = [case_line(nd, ncolors, ops) for ops in cases]
     outs = R.model(lines)
     nbad = 0
@@ -515,9 +524,10 @@ def stream_exhaustive(R, ncolors):
             R.fail('correspondence', {'stream': 'exhaustive', 'pool': nd, 'ops': ops},
                    {'fields': diff, 'impl': {f: snap[f] for f in diff}, 'model': {f: m[f] for f in diff}})
     R.sample({'exhaustive': {'pool': nd, 'ops': cases[len(al) + 7]}})
-    R.stream('exhaustive', cases=len(cases), exhaustive=True,
-             bound='all sequences of length 1..%d over %d letters: append/remove of 3 datasets, new group, remove group 0/1, '
-                   'set state of group 0, set label of group 1, merge(d0,d1), clear; final state compared and checked' % (kmax, len(al)))
+    R.stream('exhaustive', cases=n_exh, sampled_next_length=len(extra), exhaustive=True,
+             bound='all sequences of length 1..%d over %d letters (append/remove of 3 datasets, new group, remove group 0/1, set state of group 0, '
+                   'set label of group 1, merge(d0,d1), clear; a group letter only after the group exists), plus %d sampled sequences of length %d; '
+                   'final state compared and checked (every prefix is itself a case)' % (kmax, len(al), len(extra), kmax + 1))
 
 
 def rand_expr(rng, depth):
@@ -589,7 +599,7 @@ def gen_random_ops(rng, pool, length):
 
 
 def stream_random(R, ncolors):
-    n = R.pick(400, 6000)
+    n = R.pick(600, 8000)
     cases = []
     for i in range(n):
         rng = R.subrng('rand', i)
